@@ -271,6 +271,35 @@ def evaluate(mod, cases, timeout=10):
     return findings
 
 
+def crosscheck_extraction(prop, cases, limit=120):
+    """Thorough tier: evaluate a sample of the model lines inside coqc with
+    vm_compute and require the extracted binary's answers (so that extraction
+    and the OCaml glue are checked, not only trusted).  Returns (n, error)."""
+    pairs = []
+    step = max(1, len(cases) // limit)
+    for c in cases[::step]:
+        if c.mq and c.model:
+            pairs.append((c.mq[0], c.model[0]))
+        if len(pairs) >= limit:
+            break
+    if not pairs:
+        return 0, None
+    os.makedirs(WORK, exist_ok=True)
+    path = os.path.join(WORK, "xcheck_%s.v" % prop)
+
+    def lit(x):
+        return '"' + x.replace('"', '""') + '"'
+    with open(path, "w") as fh:
+        fh.write("From Coq Require Import List String.\nFrom Iso Require Import Model.DriverAll.\n"
+                 "Import ListNotations.\nOpen Scope string_scope.\n")
+        fh.write("Lemma extraction_agrees : map run_line [%s] = [%s].\nProof. vm_compute. reflexivity. Qed.\n" % (
+            "; ".join(lit(a) for a, _ in pairs), "; ".join(lit(b) for _, b in pairs)))
+    r = subprocess.run(["timeout", "1800", "coqc", "-Q", COQ, "Iso", path], capture_output=True, text=True, cwd=WORK)
+    if r.returncode != 0:
+        return len(pairs), (r.stdout + r.stderr)[-1500:]
+    return len(pairs), None
+
+
 # --------------------------------------------------------------------------
 # known findings
 # --------------------------------------------------------------------------
